@@ -77,7 +77,7 @@ lane() {
       got="exit2"; detail="harness/build error: $(grep -m1 -E '^error' "$G/build.log")"
     else
       rm -rf "$OUT/replays"
-      timeout 1500 "$BIN" check --tier quick --seed "${VERIF_SEED:-1}" --evidence "$OUT/ev.json" --replay-dir "$OUT/replays" \
+      timeout 1500 "$BIN" check --tier quick --threads "${SENS_THREADS:-6}" --seed "${VERIF_SEED:-1}" --evidence "$OUT/ev.json" --replay-dir "$OUT/replays" \
         --real-bins "$G/target/realbins/debug" --real-cwd "$G/target/realws/unic-langid-impl" --becheck "$L/becheck" >"$OUT/log" 2>&1; local rc=$?
       local viol first rp
       viol=$(grep -c '^VIOLATION' "$OUT/log")
